@@ -7,11 +7,26 @@ implementation's own labels before every step and compares the cost of the
 implementation's assignment with the optimum of the *verified* solver
 (Properties/C02.v).  A second harness calls the subnet linkers directly on
 constructed candidate graphs (adversarial cost patterns no geometry yields).
+
+Tie (route T, linking core): tools/py2coq_linker.py re-translates the CURRENT source of
+SubnetLinker.__init__ / SubnetLinker.do_recur (subnetlinker.py) and assign_subnet (subnet.py)
+into coq/Gen/linker_core.v before the proofs are re-checked; Proofs/LinkerGen.v proves the
+generated functions equal to Model/Assign.search / solve and Model/SubnetMerge.assign_subnet
+(C02_generated_*).  A translation failure or a failing re-proof is reported through
+chk.proof_broken and the correspondence harnesses still run, so that a concrete failing input
+is searched for.  In addition the generated constructor is executed next to the real
+SubnetLinker object (exact comparison of best_pairs, tie-breaking included) and next to the
+model, and the generated assign_subnet next to the dictionaries observed in real Linker runs.
 """
+import os, sys, math, hashlib
 import numpy as np
 from fractions import Fraction
 import common, linkgen
 from common import cnat, cZ, clist
+
+TRANSLATOR = os.path.join(common.VERIF, 'tools', 'py2coq_linker.py')
+GEN = os.path.join(common.COQ, 'Gen', 'linker_core.v')
+STATE = dict(gen_ok=False)
 
 IMPORTS = "From TP Require Import Model.Assign Model.Link Model.LinkCheck."
 CODES = {0: 'ok', 1: 'label used twice within a frame', 2: 'link longer than search_range',
@@ -273,9 +288,145 @@ def subnet_term(e):
                              clist(["(%s, %s)" % (ln(a), ln(b)) for a, b in e['subnets']]))
 
 
+# ---- route T: translator / build ----------------------------------------------------------
+def regenerate(chk):
+    """re-run the translator on the current source; returns (ok, text-or-log)"""
+    rc, out = common.sh([sys.executable, TRANSLATOR, '--repo', common.REPO, '--stdout'], timeout=60)
+    if rc != 0:
+        return False, out
+    with common.Lock(os.path.join(common.COQ, '.build.lock')):
+        old = open(GEN).read() if os.path.exists(GEN) else None
+        if old != out:
+            os.makedirs(os.path.dirname(GEN), exist_ok=True)
+            tmp = GEN + '.tmp%d' % os.getpid()
+            with open(tmp, 'w') as f:
+                f.write(out)
+            os.replace(tmp, GEN)
+            chk.tally('Gen/linker_core.v rewritten (source differs from last run)')
+        else:
+            chk.tally('Gen/linker_core.v unchanged')
+    return True, out
+
+
+def ensure_vo(chk, targets, report):
+    """make the given .vo files (needed by the correspondence harnesses even when a proof of the cone is broken)"""
+    with common.Lock(os.path.join(common.COQ, '.build.lock')):
+        rc, out = common.sh('timeout 600 make -j8 %s 2>&1 | tail -40' % ' '.join(targets), timeout=630, cwd=common.COQ)
+        for t in targets:
+            vo = os.path.join(common.COQ, t)
+            if not (os.path.exists(vo) and os.path.getmtime(vo) >= os.path.getmtime(vo[:-1])):
+                if report:
+                    chk.proof_broken(report, out)
+                return False
+    return True
+
+
+def build(chk):
+    """translator -> cone of Properties/C02.v -> executable comparison file.  STATE['gen_ok'] tells the
+    correspondence run whether the generated functions can be executed."""
+    STATE['gen_ok'] = False
+    ok, text = regenerate(chk)
+    if not ok:
+        chk.proof_broken('translation tools/py2coq_linker.py (SubnetLinker.__init__ / do_recur / assign_subnet left the translatable subset)', text)
+        chk.build = dict(obligations=0, discharged=0, assumptions=[], files=[], theorems=[])
+        ensure_vo(chk, ['Model/LinkCheck.vo', 'Model/IterCheck.vo', 'Model/SubnetMerge.vo'], None)
+        return False
+    for attempt in range(3):
+        b = chk.coq()
+        cur = open(GEN).read()
+        if cur == text:
+            break
+        # another run (different TRACKPY_REPO) rewrote the generated file in between: redo
+        chk.violations = [v for v in chk.violations if not v[0].startswith('proof:')]
+        regenerate(chk)
+    chk.notes.append('Gen/linker_core.v sha1 %s generated from %s' % (hashlib.sha1(text.encode()).hexdigest()[:12], common.REPO))
+    if not b['ok']:
+        ensure_vo(chk, ['Model/LinkCheck.vo', 'Model/IterCheck.vo', 'Model/SubnetMerge.vo'], None)
+    STATE['gen_ok'] = ensure_vo(chk, ['Model/LinkerGenCheck.vo'], 'Gen/linker_core.v / Model/LinkerGenCheck.v (generated linking core does not build)') \
+        and open(GEN).read() == text
+    return bool(b['ok'])
+
+
+# ---- generated linking core next to the real code and the model ---------------------------
+GENL_IMPORTS = "From TP Require Import Model.Assign Model.LinkerGenCheck."
+GENL_FUNC = "check_gen_linker"
+GENL_CODES = {0: 'ok', 20: 'the generated constructor raises / runs out of fuel where the real SubnetLinker returned',
+              21: 'the generated do_recur (translated from the current source) leaves other best_pairs than the real SubnetLinker object '
+                  '(translator or vocabulary unfaithful)',
+              22: 'the generated do_recur differs from the model search on this input (contradicts C02_generated_linker_is_solve)',
+              23: 'the generated constructor found no assignment',
+              24: 'the real SubnetLinker raised SubnetOversizeException, the generated constructor did not'}
+GENS_IMPORTS = "From TP Require Import Model.SubnetMerge Model.LinkerGenCheck."
+GENS_FUNC = "check_gen_subnets"
+GENS_CODES = {0: 'ok', 31: 'the generated assign_subnet (translated from the current source) builds another dictionary than the real Subnets.compute '
+                          '(translator or vocabulary unfaithful)',
+              32: 'the generated assign_subnet differs from the model on these pairs (contradicts C02_generated_assign_subnet_is_model)',
+              33: 'generated assign_subnet and model both raise (impossible from reset() by C02_generated_assign_subnet_total)'}
+
+
+def run_gen_linker(g):
+    """the real SubnetLinker object on the sources in a FIXED order (a list, not a set); returns its best_pairs as
+    (source position, destination index or None), or None when it raised SubnetOversizeException"""
+    from trackpy.linking import subnetlinker as sl
+    from trackpy.linking.utils import Point, SubnetOversizeException
+    Point.reset_counter()
+    R = math.sqrt(g['R2'])
+    dps = [Point(1, (float(j),)) for j in range(g['nd'])]
+    sps = []
+    for i, cs in enumerate(g['srcs']):
+        p = Point(0, (float(i),))
+        p.forward_cands = [(dps[d], math.sqrt(c)) for d, c in cs] + [(None, R)]
+        sps.append(p)
+    try:
+        snl = sl.SubnetLinker(list(sps), g['nd'], R, max_size=g['max_size'])
+    except SubnetOversizeException:
+        return None
+    pos = {id(p): k for k, p in enumerate(sps)}
+    dpos = {id(p): k for k, p in enumerate(dps)}
+    return [[pos[id(s)], None if d is None else dpos[id(d)]] for s, d in snl.best_pairs]
+
+
+def gen_linker_term(g, impl):
+    srcs = clist([clist(["(Some %s, %s)" % (cnat(d), cZ(c)) for d, c in cs] + ["(None, %s)" % cZ(g['R2'])]) for cs in g['srcs']])
+    if impl is None:
+        it = 'None'
+    else:
+        it = '(Some %s)' % clist(["(%s, %s)" % (cnat(s), 'None' if d is None else '(Some %s)' % cnat(d)) for s, d in impl])
+    return "(%s, %s, %s)" % (srcs, cnat(g['max_size']), it)
+
+
+def gen_harness(chk, sublog):
+    """executes Gen/linker_core.v (when it builds) next to the real code and next to the model"""
+    if not STATE['gen_ok']:
+        chk.tally('generated linking core not executable (translation / build failed): generated-code harness skipped')
+        return
+    n = 200 if chk.tier == 'quick' else 6000
+    terms, cases = [], []
+    for k in range(n):
+        g = gen_sq_graph(chk.rng, chk.tier)
+        g['max_size'] = chk.rng.choice([30, 30, 30, len(g['srcs']), max(0, len(g['srcs']) - 1)])
+        try:
+            impl = run_gen_linker(g)
+        except Exception as e:
+            chk.violation('SubnetLinker: exception', 'SubnetLinker raised %r' % e, dict(kind='genlinker', graph=g)); continue
+        terms.append(gen_linker_term(g, impl)); cases.append((g, impl))
+        chk.tally('generated do_recur vs SubnetLinker object' + (' (oversize raised)' if impl is None else ''))
+    res = common.coq_eval_lists(chk.work, GENL_IMPORTS, GENL_FUNC, terms, tag='genlinker')
+    for (g, impl), r in zip(cases, res):
+        chk.count(('genlinker', g), len(g['srcs']) >= 3)
+        if r != 0:
+            chk.violation('generated linker: %s' % GENL_CODES.get(r, r), 'SubnetLinker / Gen.linker_core.py_SubnetLinker_init: %s' % GENL_CODES.get(r, r),
+                          dict(kind='genlinker', code=r, graph=g, impl_best_pairs=impl))
+    sres = common.coq_eval_lists(chk.work, GENS_IMPORTS, GENS_FUNC, [subnet_term(e) for e in sublog], tag='gensubnets')
+    for e, r in zip(sublog, sres):
+        chk.tally('generated assign_subnet vs observed Subnets.compute')
+        if r != 0:
+            chk.violation('generated assign_subnet: %s' % GENS_CODES.get(r, r), GENS_CODES.get(r, r), dict(kind='gensubnets', code=r, case=e))
+
+
 def run(chk):
     common.quiet_trackpy()
-    chk.coq()
+    build(chk)
     n = 150 if chk.tier == 'quick' else 5000
     cases, terms, outs, sublog = [], [], [], []
     for k in range(n):
@@ -349,18 +500,24 @@ def run(chk):
         if r != 0:
             chk.violation('iterative solver: %s' % ITER_CODES.get(r, r), '%s: %s' % ('numba_link' if g['numba'] else 'nonrecursive_link', ITER_CODES.get(r, r)),
                           dict(kind='itergraph', code=r, graph=g, impl_choice=dests))
+    # the generated linking core (route T), executed
+    gen_harness(chk, sublog)
     chk.coverage['rule'] = ("lattice movies (integer / quarter-pixel coordinates, 1-3 D, clusters, vanishing and new particles, blank frames, duplicates) through "
                             "trackpy.link_iter with every solver strategy, memory 0-3, lowered size limits; plus constructed candidate graphs through the subnet linkers. "
                             "non-trivial = movie with >= 6 features / graph with >= 3 sources; distinct by content hash")
     chk.assumptions += ["cKDTree.query returns all sources within range (cases with > 10 in range are skipped and counted)",
                         "float distance arithmetic agrees with exact arithmetic on lattice inputs (margins >= 1/16 px^2); the 1e-7 admission slack is not modelled",
-                        "numba strategy runs interpreted (numba absent)"]
+                        "numba strategy runs interpreted (numba absent)",
+                        "Gen/linker_core.v is produced by tools/py2coq_linker.py (trusted translator, fail-closed; subset and conventions in its docstring, vocabulary in "
+                        "Model/PyLinker.v): dist**2 is an exact integer cost there (float rounding of cur_sum +=/-= dist**2 not modelled), sets/deques are lists, "
+                        "recursion on explicit fuel; the translation is exercised by exact comparison of the generated constructor with the real SubnetLinker object "
+                        "(perfect-square costs, tie-breaking included) and of the generated assign_subnet with dictionaries observed in real Linker runs"]
 
 
 def replay(chk, path):
     import json
     common.quiet_trackpy()
-    chk.coq()
+    build(chk)
     r = json.load(open(path))['replay']
     if r.get('kind') == 'movie':
         cj = r['case']
@@ -390,5 +547,21 @@ def replay(chk, path):
         print('replay: recorded Subnets.compute vs model: code', res[0], SUBNET_CODES.get(res[0]))
         if res[0] != 0:
             chk.violation('assign_subnet:%s' % SUBNET_CODES.get(res[0]), SUBNET_CODES.get(res[0]), dict(kind='subnets', code=res[0], case=e))
+    elif r.get('kind') == 'genlinker' and STATE['gen_ok']:
+        g = r['graph']
+        g['srcs'] = [[tuple(x) for x in cs] for cs in g['srcs']]
+        impl = run_gen_linker(g)
+        res = common.coq_eval_lists(chk.work, GENL_IMPORTS, GENL_FUNC, [gen_linker_term(g, impl)])
+        chk.count(('genlinker', g), True)
+        print('replay: real SubnetLinker best_pairs', impl, 'code', res[0], GENL_CODES.get(res[0]))
+        if res[0] != 0:
+            chk.violation('generated linker: %s' % GENL_CODES.get(res[0]), GENL_CODES.get(res[0]), dict(kind='genlinker', code=res[0], graph=g, impl_best_pairs=impl))
+    elif r.get('kind') == 'gensubnets' and STATE['gen_ok']:
+        e = r['case']
+        res = common.coq_eval_lists(chk.work, GENS_IMPORTS, GENS_FUNC, [subnet_term(e)])
+        chk.count(('gensubnets', e), True)
+        print('replay: generated assign_subnet vs recorded Subnets.compute: code', res[0], GENS_CODES.get(res[0]))
+        if res[0] != 0:
+            chk.violation('generated assign_subnet: %s' % GENS_CODES.get(res[0]), GENS_CODES.get(res[0]), dict(kind='gensubnets', code=res[0], case=e))
     else:
         print('replay: nothing executable in this replay file (proof/correspondence breakage): see its log field')
